@@ -95,12 +95,18 @@ def check_all(ctx, job, workdir, props):
     except Exception as err:
         ctx.fail("C03", "atoms", f"output file cannot be read as fixed-column .gro: {err!r}")
         return
-    check_c03(ctx, job, gro, top)
-    check_c15(ctx, job, top)
-    check_c06(ctx, job, gro, top)
     from oracles import supplied, restraints
-    supplied.check_c04(ctx, job, gro, top)
-    restraints.check_c07(ctx, job, top)
+    for oracle in (lambda: check_c03(ctx, job, gro, top), lambda: check_c15(ctx, job, top),
+                   lambda: check_c06(ctx, job, gro, top), lambda: supplied.check_c04(ctx, job, gro, top),
+                   lambda: restraints.check_c07(ctx, job, top)):
+        try:
+            oracle()
+        except Exception:
+            # an oracle may trip over a state that another oracle has already reported as broken (residues without
+            # position, non-finite coordinates); with no violation on record it is a genuine harness problem
+            if not ctx.viols:
+                raise
+            ctx.probe("oracle_skipped_on_broken_state")
 
 
 # ----------------------------------------------------------------------------- C03
@@ -346,6 +352,8 @@ def check_c06(ctx, job, gro, top):
             cg = np.asarray(nd["position"], dtype=float)
             X = np.array([mol.molecule.nodes[a]["position"] for a in atoms], dtype=float)
             T = np.array([tmpl[nm] for nm in names], dtype=float) * fudge
+            if not (np.all(np.isfinite(X)) and np.all(np.isfinite(cg)) and np.all(np.isfinite(T))):
+                continue          # non-finite coordinates are C03.finite's finding; nothing to fit here
             if len(atoms) >= 2:
                 ctx.probe("backmapped_multi_atom_residue")
             if np.linalg.norm(X.mean(axis=0) - cg) > 1e-9:
